@@ -262,8 +262,11 @@ def cases(draw, nmax):
 def huge_cases(draw):
     """connected two-colourable networks of a few hundred nodes (walks of one fixed length never cover all pairs), and two hubs sharing
     exactly 256 / 512 neighbours (walk counts at the wrap-around of 8-bit counters)"""
-    fam = draw(st.sampled_from(["star", "two-hubs", "even-ring", "double-star", "two-hubs"]))
-    if fam == "star":
+    fam = draw(st.sampled_from(["star", "two-hubs", "clique+long-chain", "even-ring", "double-star", "two-hubs"]))
+    if fam == "clique+long-chain":
+        # walk counts inside the clique pass 1e308 while the chain (another component) is still being explored
+        A = gen.block_diag(gen.complete_adj(draw(st.integers(45, 55))), gen.path_adj(draw(st.integers(190, 200))))
+    elif fam == "star":
         A = gen.star_adj(draw(st.integers(300, 420)))
     elif fam == "even-ring":
         A = gen.ring_adj(2 * draw(st.integers(100, 130)))
